@@ -121,6 +121,27 @@ def _result_dtype(a, b, op):
         return _wrap(_np.dtype(object))
 
 
+def _wrap_narrow(its, dt, op):
+    """numpy integer arithmetic in a type narrower than 64 bits wraps modulo 2^k (64-bit words are modelled as mathematical
+    integers: the bounded inputs of the harnesses cannot reach 2^63)"""
+    try:
+        if op not in ("add", "sub", "mul") or dt.kind not in "iu" or dt.itemsize >= 8:
+            return its
+    except AttributeError:
+        return its
+    info = _np.iinfo(dt)
+    lo, span = builtins.int(info.min), builtins.int(info.max) - builtins.int(info.min) + 1
+    out = []
+    for x in its:
+        if isinstance(x, SInt):
+            out.append(((x - lo) % span) + lo)
+        elif isinstance(x, (builtins.int, _np.integer)) and not isinstance(x, (bool, _np.bool_)):
+            out.append(((builtins.int(x) - lo) % span) + lo)
+        else:
+            out.append(x)
+    return out
+
+
 def _tolist(x):
     """flat python list of elements + shape for any array-like"""
     if isinstance(x, SArr):
@@ -268,6 +289,12 @@ class SArr:
         if casting == "safe" and not _np.can_cast(self.dtype, dtype, "safe"):
             raise TypeError(f"Cannot cast array data from {self.dtype} to {dtype} according to the rule 'safe'")
         its = self.items
+        if dtype.kind in "iu" and self.dtype.kind in "iu" and (dtype.itemsize < self.dtype.itemsize or dtype.kind != self.dtype.kind):
+            # numpy integer casts wrap modulo 2^k
+            info = _np.iinfo(dtype)
+            span = int(info.max) - int(info.min) + 1
+            its = [(((x - int(info.min)) % span) + int(info.min)) if isinstance(x, (SInt, builtins.int)) and not isinstance(x, bool) else x for x in its]
+            return SArr(its, dtype, self._shape)
         if dtype.kind == "f" and self.dtype.kind in "iub":
             its = [SReal.of(x) if is_sym(x) else float(x) for x in its]
         elif dtype.kind in "iu" and self.dtype.kind == "f":
@@ -354,6 +381,7 @@ class SArr:
             else:
                 its = [f(a, b) for a, b in pairs]
             dt = _result_dtype(o, self, op) if reflected else _result_dtype(self, o, op)
+            its = _wrap_narrow(its, dt, op)
             return SArr(its, dt, shape if len(shape) > 1 else None)
         o = _py(o)
         if not (is_sym(o) or isinstance(o, (builtins.int, builtins.float, bool)) or o is None or isinstance(o, str)):
@@ -364,6 +392,7 @@ class SArr:
         else:
             its = [f(a, o) for a in self.items]
             dt = _result_dtype(self, o, op)
+        its = _wrap_narrow(its, dt, op)
         return SArr(its, dt, self._shape)
 
     def __add__(self, o): return self._bin(o, "add")
